@@ -99,12 +99,17 @@ def r19_2(ctx):
     """The failure count and the feed counter are written only by the initialiser, _watchdog_feed and
     _watchdog_loop, and _watchdog_loop zeroes both before delegating to zigpy's loop."""
     repo = ctx.repo
+    from .ash_link import confined_writers
+
+    feed = repo.func(f"{APP}:ControllerApplication._watchdog_feed")
+    loop = repo.func(f"{APP}:ControllerApplication._watchdog_loop")
+    pxv = PX(repo, models=[(k, Outcomes(OK({}))) for k in KEEPALIVE_CALLS] + [("self._get_free_buffers", Outcomes(OK(None)))], inline=same_class())
+    for ver in (4, 8):
+        pxv.explore(feed, lambda: (self_obj(app_cls(ctx), {"_ezsp": Obj(TypeRef("EZSP"), {"ezsp_version": ver}, tag="self._ezsp"), "_watchdog_failures": 0,
+                                                          "_watchdog_feed_counter": 0}), {}))
+    pxv.explore(loop, lambda: (self_obj(app_cls(ctx), {"_watchdog_failures": 3, "_watchdog_feed_counter": 77}), {}))
     for attr in ("_watchdog_failures", "_watchdog_feed_counter"):
-        ws = index(repo).writers(attr)
-        ctx.anchor(ws, f"writers of {attr}")
-        for g, n, kind in ws:
-            ctx.require(g.short in ("ControllerApplication.__init__", "ControllerApplication._watchdog_feed", "ControllerApplication._watchdog_loop"),
-                        f"{attr}:writer:{g.short}", f"{attr} is written in {g.short}", func=g, node=n)
+        confined_writers(ctx, attr, set(pxv.visited), {"ControllerApplication.__init__"}, "R19.1/R19.2 (feed, loop)")
     f = repo.func(f"{APP}:ControllerApplication._watchdog_loop")
     ctx.fn(f)
     px = PX(repo, inline=same_class())
